@@ -28,6 +28,11 @@ RowFails(r) ==
            (IF r.eq = m THEN {} ELSE {"C19.qubit.eq"})
            \cup (IF m => r.hash_eq THEN {} ELSE {"C19.qubit.hash"})
            \cup (IF r.in_set = m THEN {} ELSE {"C19.qubit.in_set"}))
+    [] r.t = "selfedge" ->
+         (LET m == r.x = r.y IN
+           (IF r.eq = m THEN {} ELSE {"C19.edge.eq.degenerate"})
+           \cup (IF m => r.hash_eq THEN {} ELSE {"C19.edge.hash"})
+           \cup (IF r.in_set = m THEN {} ELSE {"C19.edge.in_set.degenerate"}))
     [] r.t = "seq" ->
          (IF r.out = UniqueInOrder(r.s) THEN {} ELSE {"C19.unique"})
     [] r.t = "chanseq" ->
